@@ -86,6 +86,10 @@ def gen(seed, tier):
         # leaves the content alone
         case["stale"] = rng.random() < 0.25
         case["again"] = rng.random() < 0.3
+        # ... and after both tensors were given ANOTHER leaf default (Tensor.setDefault), the same fiber objects are
+        # populated once more with a body that writes nothing: judged by the model like a fresh case under the new
+        # default (nothing may be remembered from the first pass)
+        case["redflt"] = rng.random() < 0.25
         if rng.random() < 0.15 and not case["fdflt"]:
             # the SOURCE's fibers built with their own default 0 inside a tensor of another default: which of its
             # elements are empty is judged by the owning rank's default
@@ -121,10 +125,13 @@ def gen(seed, tier):
                 case["detachA"] = True
             yield case
             continue
-        yield {"prop": PROP, "d": d, "dflt": dflt, "z": z, "a": a, "acts": acts,
-               # unowned fibers of depth >= 2 cannot know that their payloads are fibers (an empty
-               # unowned fiber guesses a scalar default), so deeper destinations live in a tensor
-               "kind": "owned" if d >= 1 else rng.choice(["owned", "free"])}
+        # unowned fibers of depth >= 2 cannot know that their payloads are fibers (an empty
+        # unowned fiber guesses a scalar default), so deeper destinations live in a tensor
+        case["kind"] = "owned" if d >= 1 else rng.choice(["owned", "free"])
+        if case["kind"] == "free":
+            case.pop("zcfg", None)
+            case["fdflt"] = False
+        yield case
 
 
 def _ranks(t):
@@ -201,7 +208,27 @@ def run(case):
         side["no_exception:" + H.err_class(e)] = False
     side.pop("member_throughout", None)
     case["impl"] = {"z": H.snapshot(z), "yields": log}
-    if case.get("again") and not any(k.startswith("no_exception") for k in side):
+    if case.get("redflt") and tz is not None and ta is not None and not case.get("fdflt") and not case.get("fmtA") \
+            and not zcfg.get("fmt") and not any(k.startswith("no_exception") for k in side):
+        d2 = 99
+        try:
+            tz.setDefault(d2)
+            ta.setDefault(d2)
+            z_before2 = H.snapshot(z)
+            log2 = []
+
+            def loop2(zf, af, prefix, depth):
+                for c, (zr, av) in zf << af:
+                    p = prefix + [c]
+                    log2.append([p, H.snapshot(zr), H.pos_of(af.payloads, av)])
+                    if depth > 0:
+                        loop2(zr, av, p, depth - 1)
+            loop2(z, a, [], d)
+            case["phase2"] = {"dflt": d2, "z": z_before2, "acts": [[list(p), "leave", 0] for p in _leaf_points(case["a"], d + 1)],
+                              "impl": {"z": H.snapshot(z), "yields": log2}}
+        except Exception as e:
+            side["no_exception_after_setDefault:" + H.err_class(e)] = False
+    if case.get("again") and "phase2" not in case and not any(k.startswith("no_exception") for k in side):
         def content(snap, depth, prefix=()):
             out = []
             for c, p in snap:
